@@ -273,3 +273,16 @@ package middleware
 //@   assert at call (*sync/atomic.Pointer[middleware.requestLedgers]).Store#1: arg1 == lastret("(*middleware.ResponseMeta).ensureLedgerHost")
 //@   assert at call (*middleware.ResponseMeta).ensureLedgerHost#1: arg0 == lastret("middleware.ResponseMetaFrom")
 //@   assert at return#1: result1 == nil && result0 == ctx && lastret("middleware.ResponseMetaFrom") == nil
+//@
+//@ # ---- C13: what counts as a failure LOCAL TO ONE REQUEST (and therefore never becomes shared failure-cache state):
+//@ # work-budget exhaustion, the attempt and probe limits, nesting limit, cancellation, deadline - and a lookup the
+//@ # resolver SHED because its own in-flight capacity was exhausted. The classification consults exactly these causes.
+//@ func IsRequestLocalResolutionError
+//@   abstract
+//@   nosafety all pre
+//@   assert at call errors.Is#1: arg0 == err && arg1 == ErrRecursionWorkLimit
+//@   assert at call errors.Is#2: arg0 == err && arg1 == ErrResolutionAttemptLimit
+//@   assert at call errors.Is#3: arg0 == err && arg1 == ErrFailureProbeLimit
+//@   assert at call errors.Is#4: arg0 == err && arg1 == ErrResolutionShed
+//@   assert at call errors.Is#5: arg0 == err && arg1 == ErrMaxRecursion
+//@   assert at return#1: result == (lastret("errors.Is#1") || lastret("errors.Is#2") || lastret("errors.Is#3") || lastret("errors.Is#4") || lastret("errors.Is#5") || lastret("errors.Is#6") || lastret("errors.Is#7"))
